@@ -237,6 +237,9 @@ func cmdCheck(args []string) {
 			undecided = append(undecided, fmt.Sprintf("%s: %s", u, res.Err))
 			continue
 		}
+		for _, st := range res.Stale {
+			undecided = append(undecided, fmt.Sprintf("%s: %s", u, st))
+		}
 		for _, a := range res.Abstr {
 			abstr[a] = true
 		}
